@@ -7,7 +7,7 @@
    That the typed lists are what the formatted file says is C15 (coherence). *)
 From Coq Require Import Sorted Permutation.
 From Verif.Base Require Import Bytes.
-From Verif.Modfile Require Import EditModel EditOps EditSpec EditProofsTyped EditProofsSort EditProofsExact.
+From Verif.Modfile Require Import EditModel EditOps EditSpec EditProofsTyped EditProofsSort EditProofsExact EditProofsSetRequire EditProofsLines.
 
 (* SetRequire: whatever the file held before (duplicates, cleared entries, any block
    structure), if the call does not panic the requirements are exactly the requested
@@ -34,6 +34,17 @@ Theorem C16_set_use_exact : forall f (l : list (str * str)) f',
   Permutation (k_use (abs f')) l /\ Permutation (k_use (abs (w_cleanup f'))) l.
 Proof. exact set_use_exact. Qed.
 Print Assumptions C16_set_use_exact.
+
+(* The same at the level of the syntax tree: the live require lines of the cleaned-up file,
+   each read as [quoted path; version; indirect marking], are exactly the requested list.
+   [Coherent] is the C15 invariant, [RequireSettable] excludes the corner
+   "// indirect; indirect; ..." (Props/C15.v, C15_coherent_set_require_refuted). *)
+Theorem C16_set_require_lines_exact : forall f l f',
+  distinct_paths (map req_path l) = true -> Coherent f -> RequireSettable f ->
+  set_require f l = Some f' ->
+  Permutation (map snd (filter is_require_view (tree_view (fsyn (cleanup f'))))) (map render_req l).
+Proof. exact set_require_lines_exact. Qed.
+Print Assumptions C16_set_require_lines_exact.
 
 (* the hypotheses are satisfiable: a file with a duplicated requirement, one request *)
 Example C16_set_require_exact_nonvacuous :
